@@ -557,8 +557,12 @@ func wireEsc(s string) string {
 
 var litTail = []string{"", "a", "ab", "abc", "x", "v1", "é", "A", ":", "*", "+", "(", "a:b", "abcd", "a_b", "0",
 	// literals that contain the delimiter characters themselves (several occurrences inside one constant part)
-	"a/", "a/b", "x-y", "a.b", "b/c/", "comments/", "-", "v1.2.", "a-b-c", "x/y-z.w"}
-var valPool = []string{"x", "xy", "1", "é", "X", "a b", "a+b", "100%", "~", "日本", "x_y", "q", "\u212a1", "\u0130b", "\u023aab"}
+	"a/", "a/b", "x-y", "a.b", "b/c/", "comments/", "-", "v1.2.", "a-b-c", "x/y-z.w",
+	// literals that overlap themselves once their (optional) trailing slash is left out: "-a-/", "--/", ".a./"
+	"a-/", "-/", "a-a-/", "a./"}
+var valPool = []string{"x", "xy", "1", "é", "X", "a b", "a+b", "100%", "~", "日本", "x_y", "q", "\u212a1", "\u0130b", "\u023aab",
+	// values that end in a proper prefix of such a literal
+	"x-a", "x-", "y-a-a", "x.a"}
 
 func genRandom(t *rapid.T) Case {
 	c := Case{CS: rapid.Bool().Draw(t, "cs"), Strict: rapid.Bool().Draw(t, "strict"), Unesc: rapid.Bool().Draw(t, "unesc")}
